@@ -56,14 +56,57 @@ def mark(block_text, src_toks, name):
         elif d == 0 and p[i] in ('requires', 'ensures', 'recommends', 'decreases', 'opens_invariants', 'no_unwind'):
             cut = i; break
     unmatched = []
-    for (pa, pz, sa, sz) in ((0, cut, 0, sb), (pb, len(p), sb, len(s))):
-        sm = difflib.SequenceMatcher(a=p[pa:pz], b=s[sa:sz], autojunk=False)
+    # loop annotations: from `invariant` / `invariant_except_break` / `decreases` inside the body up to (not including)
+    # the first `{` at relative depth 0 that directly follows a `,` (= the loop body; clauses end with a trailing comma)
+    forced = [False] * len(p)
+    i = pb + 1
+    while i < len(p):
+        if p[i] in ('invariant', 'invariant_except_break', 'decreases'):
+            d = 0; j = i
+            while j < len(p):
+                if p[j] in ('(', '['): d += 1
+                elif p[j] in (')', ']'): d -= 1
+                elif p[j] == '{':
+                    if d == 0 and p[j - 1] == ',': break
+                    d += 1
+                elif p[j] == '}': d -= 1
+                forced[j] = True; j += 1
+            i = j
+        else:
+            i += 1
+    def tok_align(pa, pz, sa, sz):
+        nonlocal matched
+        idx = [x for x in range(pa, pz) if not forced[x]]
+        sm = difflib.SequenceMatcher(a=[p[x] for x in idx], b=s[sa:sz], autojunk=False)
         for tag, i1, i2, j1, j2 in sm.get_opcodes():
             if tag == 'equal':
-                for d in range(i2 - i1): is_src[k + pa + i1 + d] = True
+                for d in range(i2 - i1): is_src[k + idx[i1 + d]] = True
                 matched += i2 - i1
             elif tag in ('insert', 'replace'):
                 unmatched.append(' '.join(s[sa + j1:sa + j2])[:80])
+    tok_align(0, cut, 0, sb)
+    # body: first match whole lines (token-identical), then align tokens inside the remaining regions
+    def line_groups(tl, lo, hi):
+        groups = []   # (first index, last index + 1) per source line
+        cur = None
+        for i in range(lo, hi):
+            if cur is None or tl[i].line != cur:
+                groups.append([i, i + 1]); cur = tl[i].line
+            else: groups[-1][1] = i + 1
+        return groups
+    pg = line_groups(toks[k:], pb, len(p)); sg = line_groups(src_toks, sb, len(s))
+    pl = [tuple(p[a:b]) if not any(forced[a:b]) else ('<forced %d>' % a,) for a, b in pg]; sl = [tuple(s[a:b]) for a, b in sg]
+    lm = difflib.SequenceMatcher(a=pl, b=sl, autojunk=False)
+    for tag, i1, i2, j1, j2 in lm.get_opcodes():
+        if tag == 'equal':
+            for d in range(i2 - i1):
+                a, b = pg[i1 + d]
+                for x in range(a, b): is_src[k + x] = True
+                matched += b - a
+        else:
+            pa = pg[i1][0] if i1 < i2 else 0; pz = pg[i2 - 1][1] if i1 < i2 else 0
+            sa = sg[j1][0] if j1 < j2 else 0; sz = sg[j2 - 1][1] if j1 < j2 else 0
+            if j1 < j2: tok_align(pa, pz, sa, sz)
     if matched != len(s):
         # show the first unmatched source tokens
         un = unmatched
